@@ -20,12 +20,12 @@ import (
 //	emit   the REAL PacketUnderlay.writeOneSegment on segments built as Write / writeChunk /
 //	       the ack and close paths build them, many padding draws per configuration: every
 //	       datagram ≤ MTU, and len(datagram) == the REGENERATED length definition
-//	       (Gen.Wire.packet{Session,Data}SegLen via mieru-gen) of the decoded fields — exact,
+//	       (Gen.UdpWire.packet{Session,Data}SegLen via mieru-gen) of the decoded fields — exact,
 //	       not a bound; paddings within the configured maxima; length fields consistent.
 //	cut    the REAL Session.Write / writeChunk (sendQueue drained by the harness) on boundary
 //	       write sizes: the (type, fragment number, length) sequence it queues == Chunk.writeSegments
-//	       (hand model, mieru-model) == Gen.Wire.cut per chunk (regenerated, mieru-gen) and
-//	       the open request's payload == Gen.Wire.openPayloadLen.
+//	       (hand model, mieru-model) == Gen.UdpWire.cut per chunk (regenerated, mieru-gen) and
+//	       the open request's payload == Gen.UdpWire.openPayloadLen.
 //	wire   real UDP sessions at the same boundaries (piggyback × small MTU × maximal end padding;
 //	       k·f−1, k·f, k·f+1 writes × every low-entropy mode), every datagram measured and its
 //	       length compared exactly with the regenerated definition.
@@ -306,7 +306,7 @@ func init() {
 		if !stageOn("exact") {
 			return
 		}
-		c.Correspondence("exact datagram length: every datagram of the real writeOneSegment (bench: open/close/data/ack × MTU and padding boundaries × every low-entropy mode, many padding draws; and real sessions) has len == Gen.Wire.packet{Session,Data}SegLen of its decoded fields; the real Write/writeChunk cutting == Chunk.writeSegments == Gen.Wire.cut on k·f−1, k·f, k·f+1 and the piggyback / chunk boundaries")
+		c.Correspondence("exact datagram length: every datagram of the real writeOneSegment (bench: open/close/data/ack × MTU and padding boundaries × every low-entropy mode, many padding draws; and real sessions) has len == Gen.UdpWire.packet{Session,Data}SegLen of its decoded fields; the real Write/writeChunk cutting == Chunk.writeSegments == Gen.UdpWire.cut on k·f−1, k·f, k·f+1 and the piggyback / chunk boundaries")
 		// Padding.maxPadTP (the budget PadOK uses) vs the real maxPaddingSizeWithTrafficPattern, inside the C14 run
 		for _, mtu := range []int{1280, 1281, 1400, 1499, 1500} {
 			for _, frag := range []int{0, 1, mtu - 88 - 256, mtu - 88 - 255, mtu - 88 - 1, mtu - 88, mtu - 87} {
